@@ -253,6 +253,46 @@ Proof.
   exact (entry_store_at f base h dh vptrs eptrs iptrs P k so tail ly data Hk Wso Ssz Tl Pl eq_refl Ld Fit Dat).
 Qed.
 
+(* ---- through an index: entry j of an index is entry (offset + j) of the store it names ---- *)
+Theorem indexed_entries_read_back_through_the_file
+  f base h dh vptrs eptrs iptrs store shape (rows : list (list wfield)) ki iso ih so j row :
+  dir_pack_at f base h dh vptrs eptrs iptrs ->
+  (* the index *)
+  nth_error iptrs ki = Some iso -> wf_sized_offset iso ->
+  ix_store ih < 2 ^ 32 -> ix_count ih < 2 ^ 32 -> ix_offset ih < 2 ^ 32 -> length (ix_free ih) = 4%nat ->
+  ix_prop ih < 256 -> wf_name (ix_name ih) ->
+  so_size iso = lenN (ser_index_header ih) -> placed f (base + so_off iso) (ser_index_header ih) ->
+  (* the store it names, as the writer serialises it *)
+  Forall (row_has_shape store shape) rows ->
+  N.of_nat j < ix_count ih -> nth_error rows (N.to_nat (ix_offset ih) + j) = Some row ->
+  N.of_nat (length rows) < 2 ^ 32 -> (length shape <= 255)%nat -> N.of_nat (psize (map raw_of shape)) < 65536 ->
+  Forall wf_wprop shape -> Forall (fun w => match w with WVariantId _ => False | _ => True end) shape ->
+  let tail := ser_flat_tail (N.of_nat (length rows)) (psize (map raw_of shape)) shape in
+  let data := concat (map (fun r => concat (map ser_field r)) rows) in
+  nth_error eptrs (N.to_nat (ix_store ih)) = Some so -> wf_sized_offset so -> so_size so = lenN tail ->
+  placed f (base + so_off so) tail -> lenN data + 4 <= so_off so -> placed f (base + so_off so - lenN data - 4) data ->
+  exists d ly dat e,
+    run f (dp_open_p base) = Ok d /\
+    run f (dp_index_p d (N.of_nat ki)) = Ok ih /\
+    run f (dp_entry_store_p d (ix_store ih)) = Ok (ly, dat) /\
+    index_get ih ly dat (N.of_nat j) = Some e /\
+    read_entry store ly e = (None, shown row).
+Proof.
+  intros P Hki Wiso I1 I2 I3 I4 I5 I6 Isz Ipl Hs Hj Hrow Hc Hn He Hw Hv tail data Hk Wso Ssz Tl Fit Dat.
+  destruct (stored_entries_read_back_through_the_file f base h dh vptrs eptrs iptrs store shape rows
+              (N.to_nat (ix_store ih)) so (N.to_nat (ix_offset ih) + j) row P Hs Hrow Hc Hn He Hw Hv Hk Wso Ssz Tl Fit Dat)
+    as (d & ly & dat & e & Ho & Hst & He1 & He2).
+  exists d, ly, dat, e.
+  assert (Ed : d = {| dp_base := base; dp_header := h; dp_dh := dh;
+                      dp_vptrs := ptr_table vptrs; dp_eptrs := ptr_table eptrs; dp_iptrs := ptr_table iptrs |}).
+  { pose proof (dir_open_ok f base h dh vptrs eptrs iptrs P) as Ho'. rewrite Ho in Ho'. now injection Ho'. }
+  split; [exact Ho|]. split.
+  { rewrite Ed. exact (index_at f base h dh vptrs eptrs iptrs ki iso ih Hki Wiso I1 I2 I3 I4 I5 I6 Isz Ipl). }
+  split; [rewrite N2Nat.id in Hst; exact Hst|]. split; [|exact He2].
+  rewrite index_get_inside by exact Hj.
+  replace (ix_offset ih + N.of_nat j) with (N.of_nat (N.to_nat (ix_offset ih) + j)) by lia. exact He1.
+Qed.
+
 (* ---- value stores through the file: what the writer put under a key is what the reader gets ---- *)
 Theorem plain_value_reads_back_through_the_file f base h dh vptrs eptrs iptrs (vals : list (list N)) k so i v :
   dir_pack_at f base h dh vptrs eptrs iptrs ->
